@@ -47,13 +47,17 @@ fn format_field(name: &str, value: &str) -> String {
         | "Build-Depends-Arch"
         | "Build-Conflicts"
         | "Build-Conflicts-Indep"
-        | "Build-Conflics-Arch"
+        | "Build-Conflicts-Arch"
         | "Depends"
         | "Recommends"
         | "Suggests"
         | "Enhances"
         | "Pre-Depends"
-        | "Breaks" => {
+        | "Breaks"
+        | "Conflicts"
+        | "Replaces"
+        | "Provides"
+        | "Built-Using" => {
             // Substitution variables are common in these fields; leave a value that does
             // not parse as it is rather than panicking
             let (relations, errors) = Relations::parse_relaxed(value, true);
